@@ -169,7 +169,17 @@ Definition g_sub_handler := mkSite 40 (Some CSub) [RQuit CSub] [].
    and <-m.quit *)
 Definition g_sub_forwarder := mkSite 41 (Some CSub) [RQuit CSub] [].
 
-(* blockmanager.go blockHandler: select has <-b.quit *)
+(* blockmanager.go blockHandler: select has <-b.quit.  Also its sends of
+   disconnected-block notifications (handleHeadersMsg -> rollBackToHeight ->
+   onBlockDisconnected: select { b.blockNtfnChan <- ; <-b.quit }).  NOTE: the
+   release by b.quit ends the WAIT, not the operation: the handler drops the
+   notification and CONTINUES the rollback, every further notification being
+   dropped the same way, then writes the new branch and returns to its main
+   select.  The operation must not fail because quit is closed: the
+   reorganisation path answers a rollback error with panic (C17/Sites.v
+   fail_paths ties the panic-on-error sites and the error returns feeding
+   them; the component scenarios of harness/cmd/c17 stop the block manager in
+   the middle of a rollback). *)
 Definition g_block_handler := mkSite 50 (Some CBlock) [RQuit CBlock] [].
 (* cfHandler waiting on newHeadersSignal: Stop broadcasts it every 50ms
    after closing b.quit, and the loop polls b.quit after every wake-up.
